@@ -101,6 +101,18 @@ CHECKS['C14'] = ('complete enumeration of request names x matching-option vector
                  'documented variant and reachable, content = bytes.decode(utf-8, ignore), mtime = stat/ZIP time, never an unrelated '
                  'file; byte contents, size limit, pairs, .index files, archive shapes (duplicates, corrupt members) and URL '
                  'dispatch (scheme x path x credentials) are enumerated completely.', '5.C14')
+CHECKS['C12'] = ('exhaustive enumeration of input histories (sequences up to a depth over a 12-input alphabet) on one live parser / '
+                 'generator pair / compiler, compared element-wise with fresh objects; enumeration of hash seeds in subprocesses',
+                 'Every sequence of <=2 / <=3 valid and invalid MIBs is fed to one parser, one symbol-table+code generator pair and '
+                 'one MibCompiler (both back ends); each element\'s tree, masked output, MibInfo, statuses or error class and line '
+                 'must equal what fresh objects give; triple repetition; the single-input jobs are re-run under PYTHONHASHSEED '
+                 '0..7 / 0..63 and must be byte-identical.', '5.C12')
+CHECKS['C17'] = ('exhaustive walk of the lattice of relaxation-option subsets (all covering edges) over a text corpus on the real '
+                 'parser factory; breakage placements against reference trees',
+                 'For every buildable subset S of the nine options (24 quick / all 384 thorough) and every o not in S the whole '
+                 'corpus (575 catalogue texts + breakage texts) is parsed under S and S+{o}: accepted texts keep their tree; each '
+                 'documented breakage at every position is accepted under its option with the corrected text\'s tree; exactly the '
+                 'subsets with supportIndex => supportSmiV1Keywords build; unknown options raise PySmiError.', '5.C17')
 NOT_YET = {}
 
 ALL = ['C%02d' % i for i in range(1, 21)]
